@@ -1,6 +1,6 @@
 (* C07/CCWDefs — code-level model of Orientation::isCCW (src/algorithm/Orientation.cpp) over grid points. Definitions only. *)
 From Coq Require Import ZArith List Bool.
-From GeosV Require Import Lib.KernelDefs.
+From GeosV.Lib Require Import KernelDefs.
 Import ListNotations.
 Local Open Scope Z_scope.
 
